@@ -283,9 +283,15 @@ def fabric_mutators_persist(R):
     STORE = ('fabric::FabricPersist::store', 'fabric::FabricPersist::remove')
     handlers = sorted({F.owner_fn(b.fn) for b in F.bodies.values() if b.focus and '::ClusterHandler>::' in b.fn and b.fn.lstrip('<').startswith('dm::clusters::') and '::decl::' in b.fn})
     R.floor('cluster handler entry points', len(handlers), 100)
+    # only cluster modules in which some body calls a mutator at all can have such a handler
+    mods_with_mut = {b.fn.lstrip('<').split(' as ')[0].rsplit('::', 1)[0] if b.fn.startswith('<') else '::'.join(b.fn.split('::')[:3])
+                     for b in F.bodies.values() if b.focus and b.fn.lstrip('<').startswith('dm::clusters::') and (set(b.calls_summary) & MUT)}
+    mods_with_mut = {'::'.join(m.split('::')[:3]) for m in mods_with_mut}
     n = 0
     for h in handlers:
         mod = h.lstrip('<').split(' as ')[0].rsplit('::', 1)[0]     # dm::clusters::<module>
+        if '::'.join(mod.split('::')[:3]) not in mods_with_mut:
+            continue
         # stay inside the cluster's own module (plus the mutators / the store themselves): what the handler does, not what the stack does
         seen = prims.reachable_fns(F, [h], depth=6, through_traits=False,
                                    stop={f for f in F.bodies if not (f.lstrip('<').startswith(mod) or f == h or F.owner_fn(f) == h)})
